@@ -186,7 +186,7 @@ func init() {
 }
 
 // the distinguishing alphabet of the text-level machine
-var tmplAlphabet = []string{"<", ">", "/", "!", "-", "=", "\"", "'", " ", "\t", "\n", "\f", "\r", "&", ";", "#", "a", "s", "S", "c", ":", "0", "x", "\x00", "\x80", "`", "$", "{", "}"}
+var tmplAlphabet = []string{"<", ">", "/", "!", "-", "=", "\"", "'", " ", "\t", "\n", "\f", "\r", "&", ";", "#", "a", "s", "S", "c", ":", "0", "x", "\x00", "\x80", "`", "$", "{", "}", "\v", "\u00a0", "\u0085", "_"}
 
 // seed texts that reach the interesting contexts
 var tmplSeeds = []string{
@@ -295,6 +295,15 @@ func genTmplText(c *caseWriter, quick bool) {
 			emit(c, "ctx_after_text", k, s)
 			emit(c, "escape_text", k, s, "0")
 		})
+		if idx < 60 || !quick {
+			// every single byte, alone and between two letters
+			for b := 0; b < 256; b++ {
+				x := string([]byte{byte(b)})
+				emit(c, "ctx_after_text", k, x)
+				emit(c, "ctx_after_text", k, "a"+x+"b")
+				emit(c, "escape_text", k, "a"+x+"b", "0")
+			}
+		}
 		for _, s := range tmplSeeds {
 			emit(c, "ctx_after_text", k, s)
 			emit(c, "escape_text", k, s, "0")
